@@ -189,6 +189,22 @@ def random_network(rng, quick=True, force=None):
             tk = rng.choice(spec["tanks"])
             edits.append({"tank": tk["name"], "attr": "add_pipe", "value": rng.choice(jn), "name": "PNEW"})
         spec["rerun"] = {"edits": edits, "fresh": rng.random() < 0.25}
+    if force.get("rerun_controls"):
+        cand = [c for c in spec["controls"] if c.get("kind", "cond") == "cond" and c.get("act", "status") == "status"]
+        ce = []
+        for c in rng.sample(cand, min(len(cand), rng.choice([1, 1, 2]))):
+            op = rng.choice(["then_action", "then_action", "priority", "condition"])
+            if op == "then_action":
+                ce.append({"op": op, "name": c["name"], "link": rng.choice(["PU0"] + links), "value": rng.choice(["OPEN", "CLOSED"])})
+            elif op == "priority":
+                ce.append({"op": op, "name": c["name"], "prio": rng.choice([0, 1, 2, 4, 5, 6])})
+            else:
+                ce.append({"op": op, "name": c["name"], "thr": round(c["thr"] + rng.choice([-0.4, 0.3, 0.6]), 3)})
+        if rng.random() < 0.3 and cand:
+            ce.append({"op": "remove", "name": rng.choice(cand)["name"]})
+        rr = spec.get("rerun") or {"edits": [], "fresh": rng.random() < 0.2}
+        rr["ctl_edits"] = [e for i, e in enumerate(ce) if not (e["op"] != "remove" and any(x["op"] == "remove" and x["name"] == e["name"] for x in ce))]
+        spec["rerun"] = rr
     # tank leaks (C06 stream): Tank.add_leak with a window on or off the hydraulic grid; DD and PDD
     if force.get("leaks"):
         spec["options"]["demand_model"] = rng.choice(["DD", "PDD"])
@@ -377,6 +393,94 @@ def companion_priority_spec(kind="valve", close_first=False):
         soft = {"name": "speed", "src": "T", "attr": "level", "rel": "ge", "thr": 3.0, "link": "PU", "act": "base_speed", "value": 1.0, "prio": 1}
         hard = {"name": "close", "src": "T", "attr": "level", "rel": "ge", "thr": 5.0, "link": "PU", "act": "status", "value": "CLOSED", "prio": 3}
     s["controls"] = [hard, soft] if close_first else [soft, hard]
+    return s
+
+
+def effective_spec(spec):
+    """the spec as the SECOND run of a rerun cycle sees it: control edits applied (update_then_actions / update_priority /
+    update_condition on the same control object, add, remove)"""
+    edits = (spec.get("rerun") or {}).get("ctl_edits")
+    if not edits:
+        return spec
+    out = dict(spec)
+    ctl = [dict(c) for c in spec["controls"]]
+    for e in edits:
+        if e["op"] == "remove":
+            ctl = [c for c in ctl if c["name"] != e["name"]]
+        elif e["op"] == "add":
+            ctl.append(dict(e["control"]))
+        else:
+            for c in ctl:
+                if c["name"] == e["name"]:
+                    if e["op"] == "then_action":
+                        c["link"], c["value"] = e["link"], e["value"]
+                        c.pop("act", None)
+                    elif e["op"] == "priority":
+                        c["prio"] = e["prio"]
+                    elif e["op"] == "condition":
+                        c["thr"] = e["thr"]
+    out["controls"] = ctl
+    out["_orig"] = spec
+    return out
+
+
+def apply_control_edits(wntr, wn, spec):
+    from wntr.network.controls import Control, ControlAction, ValueCondition, ControlPriority
+    from wntr.network import LinkStatus
+
+    for e in (spec.get("rerun") or {}).get("ctl_edits", []):
+        if e["op"] == "remove":
+            wn.remove_control(e["name"])
+            continue
+        if e["op"] == "add":
+            c = e["control"]
+            act = ControlAction(wn.get_link(c["link"]), "status", LinkStatus.Open if c["value"] == "OPEN" else LinkStatus.Closed)
+            wn.add_control(c["name"], Control(ValueCondition(wn.get_node(c["src"]), c["attr"], REL_NAMES[c["rel"]], c["thr"]), act,
+                                               priority=ControlPriority(c["prio"])))
+            continue
+        ctl = wn.get_control(e["name"])
+        if e["op"] == "then_action":
+            ctl.update_then_actions(ControlAction(wn.get_link(e["link"]), "status", LinkStatus.Open if e["value"] == "OPEN" else LinkStatus.Closed))
+        elif e["op"] == "priority":
+            ctl.update_priority(ControlPriority(e["prio"]))
+        elif e["op"] == "condition":
+            old = [c for c in spec["controls"] if c["name"] == e["name"]][0]
+            ctl.update_condition(ValueCondition(wn.get_node(old["src"]), old["attr"], REL_NAMES[old["rel"]], e["thr"]))
+
+
+def rerun_control_edit_spec(op="then_action", fresh=False):
+    """seeded/C05-9: run, reset, edit a control IN PLACE (same Control object), run again with the SAME simulator object"""
+    s = priority_presolve_spec(3, "max")
+    s["controls"] = [{"name": "c0", "src": "T0", "attr": "level", "rel": "ge", "thr": 2.0, "link": "PX", "value": "CLOSED", "prio": 3}]
+    s["tanks"][0]["max"] = 9.0
+    if op == "then_action":
+        ed = {"op": "then_action", "name": "c0", "link": "PY", "value": "CLOSED"}
+    elif op == "condition":
+        ed = {"op": "condition", "name": "c0", "thr": 3.5}
+    elif op == "priority":
+        ed = {"op": "priority", "name": "c0", "prio": 5}
+    else:
+        ed = {"op": "add", "control": {"name": "c9", "src": "T0", "attr": "level", "rel": "ge", "thr": 3.0, "link": "PY", "value": "CLOSED", "prio": 3}}
+    s["rerun"] = {"edits": [], "ctl_edits": [ed], "fresh": fresh}
+    return s
+
+
+def leak_threshold_spec(mode="drain"):
+    """seeded/C05-10: a tank-level simple control on a tank with an ACTIVE leak: 'drain' -- the tank loses water through the leak only
+    (its pipe is closed), 'refill' -- it fills through a pipe while leaking; the threshold must be met by a partial step"""
+    s = _base(3600, 3)
+    s["reservoirs"].append({"name": "R", "head": 45.0})
+    s["junctions"].append({"name": "J", "elev": 0.0, "demand": 0.002, "pattern": None})
+    s["tanks"].append({"name": "T", "elev": 20.0, "init": 4.0 if mode == "drain" else 1.0, "min": 0.0, "max": 8.0, "diam": 4.0, "curve": None,
+                       "leak": {"area": 0.002, "cd": 0.75, "start": 0, "end": None}})
+    s["pipes"] += [{"name": "PA", "start": "R", "end": "J", "length": 100.0, "diam": 0.3, "rough": 100.0, "cv": False, "status": "OPEN"},
+                   {"name": "PT", "start": "J", "end": "T", "length": 100.0, "diam": 0.15, "rough": 100.0, "cv": False,
+                    "status": "CLOSED" if mode == "drain" else "OPEN"},
+                   {"name": "PX", "start": "R", "end": "J", "length": 500.0, "diam": 0.1, "rough": 100.0, "cv": False, "status": "OPEN"}]
+    if mode == "drain":
+        s["controls"].append({"name": "c0", "src": "T", "attr": "level", "rel": "le", "thr": 3.0, "link": "PX", "value": "CLOSED", "prio": 3})
+    else:
+        s["controls"].append({"name": "c0", "src": "T", "attr": "level", "rel": "ge", "thr": 3.0, "link": "PX", "value": "CLOSED", "prio": 3})
     return s
 
 
@@ -759,6 +863,7 @@ def run_instrumented(spec, report="ALL", wn=None, keep_wn=False):
                     wn.add_pipe(e["name"], e["value"], e["tank"], length=150.0, diameter=0.2, roughness=100.0)
             else:
                 setattr(tk, e["attr"], e["value"])
+        apply_control_edits(wntr, wn, spec)
         wn.reset_initial_values()
     tr = Trace()
     names = list(wn.link_name_list)
@@ -1119,7 +1224,7 @@ def parse_links(s):
 
 
 def spec_sig(spec):
-    return json.dumps(spec, sort_keys=True)
+    return json.dumps({k: v for k, v in spec.items() if k != "_orig"}, sort_keys=True)
 
 
 def minimal_note(spec):
